@@ -314,10 +314,11 @@ impl Property for P {
         v.push(send(5, vec![Msg::Read(7, vec![]), Msg::Close(8)], vec![56, 1, 57]));     // runs out of writes
         v.push(send(0, vec![], vec![5]));
         v.push(send(5, vec![Msg::Close(1)], vec![]));
+        // a real two-chunk message (chunk order matters) in half-buffer writes, as the unit test does
+        v.push(send(5, vec![Msg::Big(2), Msg::Close(3)], vec![4098; 8]));
         if tier == "thorough" {
             // a real multi-chunk message in half-buffer writes (the unit test's single schedule) and odd sizes
             v.push(send(1, vec![Msg::Close(1), Msg::Big(2), Msg::Close(3)], vec![100000; 5])); // 2-chunk message over a limit of 1: refused
-            v.push(send(5, vec![Msg::Big(2), Msg::Close(3)], vec![4098; 8]));
             v.push(send(0, vec![Msg::Close(1), Msg::Big(2)], vec![8195, 1, 1, 8196, 5000, 0, 5000]));
         }
         v
